@@ -148,6 +148,8 @@ def run(ctx):
     with cf.ThreadPoolExecutor(4) as ex:
         for c, r in ex.map(one, cfgs):
             ctx.model("GridLandscape %s" % c, r, constants=c)
+    from .. import tlaps
+    tlaps.attach(ctx, "TentLipschitz", "for ALL integers: endpoints moved by <= s/2 move the tent by <= s/2 at every t; max/min are 1-Lipschitz (unbounded half of HalfStep)")
     embs_all = EXACT_EMBS + DEC_EMBS[:3]
     n = 1500 if quick else 12000
     gcs = [gen_case(ctx.rng, quick) for _ in range(n)]
